@@ -45,8 +45,55 @@ func vC06RootID(b []byte) uint64 {
 	}
 	return uint64(b[31])
 }
-func vC06Onramp32(id uint64) []byte { b := make([]byte, 32); b[0] = 0xAB; b[12] = 0x11; b[31] = byte(id); return b }
-func vC06Onramp20(id uint64) []byte { b := make([]byte, 20); b[0] = 0x11; b[19] = byte(id); return b }
+// vC06OnrampN: the on-ramp address with identity id as an n-byte string. n = 32 is the abi-encoded form the plugin
+// requests (0xAB, zeros, then the 20 address bytes 0x11 .. id), n = 20 the bare address; other lengths exist so that
+// the 20-byte rule of the controller is exercised on requested addresses that are shorter / longer.
+func vC06OnrampN(id uint64, n int) []byte {
+	b := make([]byte, n)
+	if n > 20 {
+		b[0] = 0xAB
+	}
+	if n >= 20 {
+		b[n-20] = 0x11
+	} else if n >= 2 {
+		b[0] = 0x11
+	}
+	if n >= 1 {
+		b[n-1] = byte(id)
+	}
+	return b
+}
+
+// olen as stored in requests / lane updates: 0 = the usual 32 bytes, -1 = an empty address, else the length
+func vC06ReqLen(olen int) int {
+	switch {
+	case olen == 0:
+		return 32
+	case olen < 0:
+		return 0
+	}
+	return olen
+}
+
+// the harness's own statement of what an observation has to carry for a requested address: its last 20 bytes
+func vC06Tail20(b []byte) []byte {
+	if len(b) > 20 {
+		return b[len(b)-20:]
+	}
+	return b
+}
+
+// a byte string whose length matters, for the Coq side: (length, its non-zero bytes as (index from the end, byte) in
+// ascending index order) — canonical, so equal terms <=> bytes.Equal
+func cAddr(b []byte) string {
+	var nz []string
+	for i := len(b) - 1; i >= 0; i-- {
+		if b[i] != 0 {
+			nz = append(nz, cPair(cNi(len(b)-1-i), cNi(int(b[i]))))
+		}
+	}
+	return cPair(cNi(len(b)), cList(nz))
+}
 func vC06Offramp(id uint64) []byte  { return []byte{0x0f, 0xfa, byte(id)} }
 func vC06Digest(id uint64) cciptypes.Bytes32 {
 	var d cciptypes.Bytes32
@@ -261,6 +308,9 @@ func vC06Parked(gid string, buf []byte) bool {
 type vC06LU struct {
 	src       bool
 	ch, onr   uint64
+	olen      int    // length class of the REQUESTED address this lane update answers (see vC06ReqLen)
+	raw       bool   // the on-ramp bytes are onrRaw instead of the last 20 bytes of the requested address
+	onrRaw    []byte
 	itv       bool
 	mn, mx    uint64
 	rootKind  int // 0 nil, 1 short, 2 exact, 3 long
@@ -287,6 +337,64 @@ type vC06Body struct {
 	by, nonc uint64
 }
 
+// the on-ramp address bytes of a lane update
+func (l *vC06LU) onramp() []byte {
+	if l.raw {
+		return l.onrRaw
+	}
+	return vC06Tail20(vC06OnrampN(l.onr, vC06ReqLen(l.olen)))
+}
+
+// setOnramp replaces the address by f(expected bytes, requested bytes)
+func (l *vC06LU) setOnramp(f func(exp, req []byte) []byte) {
+	exp := append([]byte(nil), l.onramp()...)
+	req := vC06OnrampN(l.onr, vC06ReqLen(l.olen))
+	l.onrRaw, l.raw = f(exp, req), true
+}
+func (l *vC06LU) bumpOnramp() {
+	l.setOnramp(func(exp, _ []byte) []byte {
+		if len(exp) == 0 {
+			return []byte{1}
+		}
+		exp[len(exp)-1]++
+		return exp
+	})
+}
+
+// the on-ramp address shapes that are NOT the requested lane although they share bytes with it
+var vC06OnrampShapes = []struct {
+	name string
+	f    func(exp, req []byte) []byte
+}{
+	{"onramp-empty", func(exp, req []byte) []byte { return []byte{} }},
+	{"onramp-tail-1", func(exp, req []byte) []byte {
+		if len(exp) < 2 {
+			return append(exp, 0)
+		}
+		return exp[len(exp)-1:]
+	}},
+	{"onramp-tail-19", func(exp, req []byte) []byte {
+		if len(exp) < 2 {
+			return append(exp, 0)
+		}
+		return exp[1:]
+	}},
+	{"onramp-head-19", func(exp, req []byte) []byte {
+		if len(exp) < 2 {
+			return append([]byte{0}, exp...)
+		}
+		return exp[:len(exp)-1]
+	}},
+	{"onramp-as-requested", func(exp, req []byte) []byte { // the full requested (abi-encoded) form: longer, same tail
+		if len(req) == len(exp) {
+			return append([]byte{0}, exp...)
+		}
+		return req
+	}},
+	{"onramp-padded-21", func(exp, req []byte) []byte { return append([]byte{0}, exp...) }},
+	{"onramp-plus-zero", func(exp, req []byte) []byte { return append(exp, 0) }},
+}
+
 func (b *vC06Body) pb() []byte {
 	if b.garbage {
 		return []byte{0xff, 0xff, 0xff, 0x07}
@@ -305,7 +413,7 @@ func (b *vC06Body) pb() []byte {
 			for _, l := range b.lus {
 				lu := &rmnpb.FixedDestLaneUpdate{}
 				if l.src {
-					lu.LaneSource = &rmnpb.LaneSource{SourceChainSelector: l.ch, OnrampAddress: vC06Onramp20(l.onr)}
+					lu.LaneSource = &rmnpb.LaneSource{SourceChainSelector: l.ch, OnrampAddress: l.onramp()}
 				}
 				if l.itv {
 					lu.ClosedInterval = &rmnpb.ClosedInterval{MinMsgNr: l.mn, MaxMsgNr: l.mx}
@@ -381,7 +489,7 @@ func (b *vC06Body) coq() string {
 			lus := cMap(b.lus, func(l vC06LU) string {
 				src, itv := cNone(), cNone()
 				if l.src {
-					src = cSome(cPair(cN(l.ch), cN(l.onr)))
+					src = cSome(cPair(cN(l.ch), cAddr(l.onramp())))
 				}
 				if l.itv {
 					itv = cSome(cPair(cN(l.mn), cN(l.mx)))
@@ -413,7 +521,12 @@ type vC06Node struct {
 	chains []uint64
 	key    uint64
 }
-type vC06Req struct{ ch, onr, mn, mx uint64 }
+type vC06Req struct {
+	ch, onr, mn, mx uint64
+	olen            int // length class of the requested on-ramp address (see vC06ReqLen)
+}
+
+func (q vC06Req) onramp() []byte { return vC06OnrampN(q.onr, vC06ReqLen(q.olen)) }
 type vC06Signer struct{ node, addr uint64 }
 type vC06Cfg struct {
 	nodes     []vC06Node
@@ -436,7 +549,7 @@ func (c *vC06Cfg) coq() string {
 		cMap(c.nodes, func(n vC06Node) string { return cApp("mkHomeNode", cN(n.id), cListN(n.chains), cN(n.key)) }),
 		cMap(c.homeF, func(p [2]int64) string { return cPair(cN(uint64(p[0])), cZ(p[1])) }),
 		cN(c.destSel), cN(c.destOff), cBool(c.destSel == 1), cN(c.digest),
-		cMap(c.reqs, func(r vC06Req) string { return cApp("mkLaneReq", cN(r.ch), cN(r.onr), cN(r.mn), cN(r.mx)) }),
+		cMap(c.reqs, func(r vC06Req) string { return cApp("mkLaneReq", cN(r.ch), cAddr(r.onramp()), cN(r.mn), cN(r.mx)) }),
 		cMap(c.signers, func(s vC06Signer) string { return cApp("mkSigner", cN(s.node), cN(s.addr)) }),
 		cZ(int64(c.remoteF)), cBool(c.dueA), cBool(c.dueB))
 }
@@ -552,6 +665,10 @@ func vC06GenCfg(r *vRand, cls string) *vC06Cfg {
 	}
 	c.dueA = r.Chance(1, 3)
 	c.dueB = r.Chance(1, 3)
+	// requested on-ramp addresses that are not the usual 32 bytes: exactly 20, 21, longer, short, one byte, empty
+	if r.Chance(1, 8) {
+		c.reqs[r.Intn(len(c.reqs))].olen = vPick(r, []int{20, 21, 40, 5, 1, -1, 19})
+	}
 	return c
 }
 
@@ -680,9 +797,16 @@ func vC06AnomsA() []vC06Anom {
 		onLU("nil-interval-first", vC06First, func(l *vC06LU) { l.itv = false }),
 		onLU("min-plus-one", vC06First, func(l *vC06LU) { l.mn++ }),
 		onLU("max-minus-one", vC06First, func(l *vC06LU) { l.mx-- }),
-		onLU("onramp-differs", vC06Last, func(l *vC06LU) { l.onr++ }),
+		onLU("onramp-differs", vC06Last, func(l *vC06LU) { l.bumpOnramp() }),
 		onLU("conflicting-root", vC06First, func(l *vC06LU) { l.root = 200 + l.ch }),
 		onLU("empty-root", vC06First, func(l *vC06LU) { l.root = 0 }),
+		onLU(vC06OnrampShapes[0].name, vC06Last, func(l *vC06LU) { l.setOnramp(vC06OnrampShapes[0].f) }),
+		onLU(vC06OnrampShapes[1].name, vC06First, func(l *vC06LU) { l.setOnramp(vC06OnrampShapes[1].f) }),
+		onLU(vC06OnrampShapes[2].name, vC06Last, func(l *vC06LU) { l.setOnramp(vC06OnrampShapes[2].f) }),
+		onLU(vC06OnrampShapes[3].name, vC06Last, func(l *vC06LU) { l.setOnramp(vC06OnrampShapes[3].f) }),
+		onLU(vC06OnrampShapes[4].name, vC06First, func(l *vC06LU) { l.setOnramp(vC06OnrampShapes[4].f) }),
+		onLU(vC06OnrampShapes[5].name, vC06Last, func(l *vC06LU) { l.setOnramp(vC06OnrampShapes[5].f) }),
+		onLU(vC06OnrampShapes[6].name, vC06Last, func(l *vC06LU) { l.setOnramp(vC06OnrampShapes[6].f) }),
 		plain("nil-observation", func(b *B) { b.hasObs = false }),
 		plain("nil-lanedest", func(b *B) { b.hasDest = false }),
 		plain("wrong-dest-selector", func(b *B) { b.sel = 3 - b.sel }),
@@ -798,13 +922,13 @@ func (g *vC06Gen) goodObs(node uint64, s vC06Send) vC06Body {
 		if g.c.byzantine[node] && g.villainA < 0 && g.r.Chance(1, 2) {
 			root = g.c.altRoot[ch]
 		}
-		b.lus = append(b.lus, vC06LU{src: true, ch: ch, onr: rq.onr, itv: true, mn: rq.mn, mx: rq.mx, rootKind: 2, root: root})
+		b.lus = append(b.lus, vC06LU{src: true, ch: ch, onr: rq.onr, olen: rq.olen, itv: true, mn: rq.mn, mx: rq.mx, rootKind: 2, root: root})
 	}
 	return b
 }
 
 // corrupt one aspect of an otherwise correct observation
-func (g *vC06Gen) corruptObs(b *vC06Body) string { return g.corruptObsK(b, g.r.Intn(26)) }
+func (g *vC06Gen) corruptObs(b *vC06Body) string { return g.corruptObsK(b, g.r.Intn(33)) }
 
 func (g *vC06Gen) corruptObsK(b *vC06Body, k int) string {
 	r := g.r
@@ -867,7 +991,7 @@ func (g *vC06Gen) corruptObsK(b *vC06Body, k int) string {
 		}
 	case 12:
 		if l := lu(); l != nil {
-			l.onr++
+			l.bumpOnramp()
 			return "wrong-onramp"
 		}
 	case 13:
@@ -898,6 +1022,14 @@ func (g *vC06Gen) corruptObsK(b *vC06Body, k int) string {
 			b.lus = b.lus[:len(b.lus)-1]
 			return "lane-subset"
 		}
+	case 26, 27, 28, 29, 30, 31, 32:
+		// the lane source names ANOTHER lane: an address that shares bytes with the requested one (a shorter tail, a
+		// prefix, the abi-encoded form, padded) but is not byte-equal to its last 20 bytes
+		if l := lu(); l != nil {
+			sh := vC06OnrampShapes[k-26]
+			l.setOnramp(sh.f)
+			return sh.name
+		}
 	case 24:
 		b.sigOther = true
 		return "signature-over-other-bytes"
@@ -918,7 +1050,7 @@ func (g *vC06Gen) corruptObsK(b *vC06Body, k int) string {
 				has = has || l.ch == rq.ch
 			}
 			if !has {
-				b.lus = append(b.lus, vC06LU{src: true, ch: rq.ch, onr: rq.onr, itv: true, mn: rq.mn, mx: rq.mx,
+				b.lus = append(b.lus, vC06LU{src: true, ch: rq.ch, onr: rq.onr, olen: rq.olen, itv: true, mn: rq.mn, mx: rq.mx,
 					rootKind: 2, root: g.c.trueRoot[rq.ch]})
 				return "extra-lane"
 			}
@@ -1044,7 +1176,7 @@ func (g *vC06Gen) next(sends []vC06Send) (node uint64, body vC06Body, cls string
 					if rq.ch == g.attackChain {
 						root = 250
 					}
-					b.lus = append(b.lus, vC06LU{src: true, ch: rq.ch, onr: rq.onr, itv: true, mn: rq.mn, mx: rq.mx,
+					b.lus = append(b.lus, vC06LU{src: true, ch: rq.ch, onr: rq.onr, olen: rq.olen, itv: true, mn: rq.mn, mx: rq.mx,
 						rootKind: 2, root: root})
 				}
 				return s.node, b, cl
@@ -1224,7 +1356,7 @@ func vC06Call(env *vC06Env, r *vRand, c *vC06Cfg, cfgCls string, maxItems int, w
 	var reqs []*rmnpb.FixedDestLaneUpdateRequest
 	for _, q := range c.reqs {
 		reqs = append(reqs, &rmnpb.FixedDestLaneUpdateRequest{
-			LaneSource:     &rmnpb.LaneSource{SourceChainSelector: q.ch, OnrampAddress: vC06Onramp32(q.onr)},
+			LaneSource:     &rmnpb.LaneSource{SourceChainSelector: q.ch, OnrampAddress: q.onramp()},
 			ClosedInterval: &rmnpb.ClosedInterval{MinMsgNr: q.mn, MaxMsgNr: q.mx}})
 	}
 	remote := rmntypes.RemoteConfig{ContractAddress: []byte{9, 9, 9}, ConfigDigest: vC06Digest(c.digest), F: c.remoteF,
@@ -1268,7 +1400,7 @@ func vC06Call(env *vC06Env, r *vRand, c *vC06Cfg, cfgCls string, maxItems int, w
 	gen := &vC06Gen{r: r, c: c, used: map[uint64]bool{}, honest: vPick(r, []int{97, 92, 85, 70, 40, 15}),
 		villainA: -1, villainB: -1}
 	if r.Chance(1, 3) {
-		gen.villainA = vPick(r, []int{19, 19, 10, 11, 12, 13, 9, 7, 8, 15, 6, 5, 4, 14, 16, 22, 22})
+		gen.villainA = vPick(r, []int{19, 19, 10, 11, 12, 13, 9, 7, 8, 15, 6, 5, 4, 14, 16, 22, 22, 26, 27, 28, 29, 30, 31, 32, 26, 27, 28, 30})
 		gen.villainB = vPick(r, []int{1, 2, 2, 0})
 		gen.honest = 95
 	}
@@ -1490,7 +1622,7 @@ func vC06Call(env *vC06Env, r *vRand, c *vC06Cfg, cfgCls string, maxItems int, w
 			for _, lu := range res.sigs.LaneUpdates {
 				lanes = append(lanes, cPair(cN(lu.LaneSource.SourceChainSelector), cN(vC06RootID(lu.Root))))
 				q := c.req(lu.LaneSource.SourceChainSelector)
-				if q == nil || !bytes.Equal(lu.LaneSource.OnrampAddress, vC06Onramp32(q.onr)) ||
+				if q == nil || !bytes.Equal(lu.LaneSource.OnrampAddress, q.onramp()) ||
 					lu.ClosedInterval.MinMsgNr != q.mn || lu.ClosedInterval.MaxMsgNr != q.mx {
 					repok = false
 				}
